@@ -12,6 +12,8 @@ def main():
     ap.add_argument("--replay")
     a = ap.parse_args()
     seed = int(os.environ.get("VERIF_SEED", "0") or 0)
+    import logging
+    logging.disable(logging.CRITICAL)
     from mc import core
     try:
         driver = importlib.import_module("props." + a.pid.lower())
